@@ -1944,4 +1944,14 @@ class Interp:
             isn = s.pnull.get(f[1])
             s.ev('ob', n, ob='null-call', ok=(True if isn is False else (False if isn is True else None)), ptr=f)
             return self.model.callback(f, args, s, self, n)
+        if isinstance(f, tuple) and f and f[0] in ('top', 'null', 'uninit'):
+            # a call through a pointer that is NULL or came out of a failed dereference: the obligation is
+            # recorded as failed (C03) and the path goes on with an unknown result, so that the rest of the
+            # tree is still analysed
+            s.ev('ob', n, ob='null-call', ok=False, ptr=f)
+            rt = n.get('type', {})
+            if self.prog.int_type(rt) is not None:
+                return [(s, self.fresh(s, 'wildcall@%s' % node_pos(n)[1], rt))]
+            q = rt.get('qualType', '') if isinstance(rt, dict) else str(rt)
+            return [(s, None if q.strip() == 'void' else ('top',))]
         raise Unsupported('call through %r at line %s' % (f, node_pos(n)[1]))
